@@ -8,7 +8,16 @@ rm -rf "$W"; git -C /repo worktree prune; git -C /repo worktree add -q "$W" HEAD
 cd "$W" || exit 2
 git apply "$PATCH" || { echo "PATCH-DOES-NOT-APPLY"; exit 2; }
 go build ./... && echo "BUILD ok" || { echo "BUILD failed"; exit 2; }
-go test -vet=off -count=1 -timeout 20m ./... > /tmp/seedv/$ID.suite.log 2>&1
+go test -vet=off -count=1 -timeout 6m ./... > /tmp/seedv/$ID.suite.log 2>&1
+# the suite has a test that hangs now and then even on the unchanged tree (TestRemoteDeletionPool): on a time-out
+# the tests package is run again
+n=0
+while grep -q "panic: test timed out" /tmp/seedv/$ID.suite.log && [ $n -lt 3 ]; do
+  n=$((n+1)); echo "tests package timed out (known flaky hang), re-running ($n)"
+  grep -v "gluon/tests" /tmp/seedv/$ID.suite.log | grep -E "^(ok|FAIL)" > /tmp/seedv/$ID.suite.other
+  go test -vet=off -count=1 -timeout 6m ./tests/ > /tmp/seedv/$ID.suite.tests 2>&1
+  cat /tmp/seedv/$ID.suite.other /tmp/seedv/$ID.suite.tests > /tmp/seedv/$ID.suite.log
+done
 FAILS=$(grep -E "^--- FAIL" /tmp/seedv/$ID.suite.log | awk '{print $3}' | sort -u)
 if [ -n "$FAILS" ]; then
   echo "suite failures (re-running each alone 3x): $FAILS"
